@@ -1,6 +1,6 @@
 """pyimp — a fail-closed translator from a small imperative subset of Python (methods of one class that read and
-write integer / enum / float attributes of `self`, with if/elif/else, early returns, `with self._lock`, min/max,
-calls of other translated methods) to Gallina functions  state -> args -> state * ret.
+write integer / enum / float / optional attributes of `self`, with if/elif/else, early returns, `with self._lock`,
+min/max, calls of other translated methods) to Gallina functions.
 
 The output is re-generated from /repo's working tree on every run; `GenOk.v` files prove that the generated
 functions coincide with the hand-written model, so the property theorems are re-checked against what the code
@@ -8,16 +8,35 @@ says now.  Anything outside the subset raises `Unsupported` (with the source lin
 failed obligation: nothing is ever skipped silently, except what the configuration explicitly declares to be
   * audit attributes  (written, never read by translated code; a read is an error),
   * audit methods     (checked to touch audit attributes only),
-  * callbacks         (environment: assumed not to re-enter the object),
+  * callbacks         (environment: assumed not to raise and not to re-enter the object),
   * print statements.
+
+Two output shapes:
+  plain   (cfg.effects = False):  fun : state -> args -> state * ret        proc : state -> args -> state
+  effects (cfg.effects = True) :  every method : state -> args -> state * outcome * list event
+          where a Python exception the subset can raise (ZeroDivisionError of an unguarded int/int division)
+          is the outcome cfg.ret_ctor["raise"], calls propagate it, and declared event callbacks append to the
+          event list.
 
 Control flow: a statement list is translated with its continuation duplicated into both arms of every `if`
 that can fall through, so early returns and assignments inside branches need no special treatment.
+
+Divisions: `a / b` on integers raises ZeroDivisionError when b == 0.  A division is translated without a check
+only when an enclosing condition syntactically establishes b != 0 (b > 0, 0 < b, b != 0, b >= 1, or the else-arm
+of b == 0 / b <= 0 ... with nothing assigned in between); otherwise the effects shape emits the check and the
+plain shape refuses the source.
+
+Optional values.  Field / parameter types
+  optZ  : None or an object that is always truthy (a datetime as a number)   truthy iff Some
+  optD  : None or a number-like object that is falsy when zero (a timedelta)  truthy iff Some v, v <> 0
+  optI  : None or an int                                                      truthy iff Some v, v <> 0
+  optE:<enum type> : None or an enum member (only assigned, never tested)
 """
 from __future__ import annotations
 
 import ast
 import dataclasses
+import re
 
 
 class Unsupported(Exception):
@@ -29,18 +48,35 @@ class Config:
     cls: str
     state_type: str                    # name of the generated record
     prefix: str                        # prefix of generated projections / setters / functions
-    fields: dict                       # python attribute -> (coq field name, type)   type in {"Z","bool","float",<enum type>}
+    fields: dict                       # python attribute -> (coq field name, type)
     audit_attrs: set                   # attributes that may be written but never read
     audit_methods: set                 # methods that touch audit attributes only (calls are dropped)
-    callbacks: set                     # attributes holding environment callbacks
+    callbacks: set                     # attributes holding environment callbacks (calls are dropped)
     lock_attrs: set                    # `with self.<lock>` is transparent
     enums: dict                        # python enum class -> (coq type, {member: constructor})
-    methods: dict                      # python method -> kind: "fun" (state * ret) | "proc" (state)
-    ret_ctor: dict                     # type -> constructor of the model's `ret`  {"bool": "RBool", "Z": "RInt", "unit": "RUnit"}
+    methods: dict                      # python method -> kind: "fun" | "proc"
+    ret_ctor: dict                     # type -> term of the model's return type; "%s" is replaced by the value
     other_param: str | None = None     # name of a parameter that is another instance of the class
     header: str = ""
-    config_attrs: set = dataclasses.field(default_factory=set)   # attributes read only in dropped code (e.g. silent)
-    clock: str | None = None           # e.g. "datetime.now": calls of it read the parameter (now : Z) every method gets
+    config_attrs: set = dataclasses.field(default_factory=set)
+    clock: str | None = None           # e.g. "datetime.now": calls of it read the parameter (now : Z)
+    effects: bool = False
+    event_callbacks: dict = dataclasses.field(default_factory=dict)   # attribute -> format of the event term
+    event_type: str = ""
+    outcome_type: str = ""
+    int_to_float: str = "f_of_Z"
+    float_trunc: str = "f_trunc"
+
+
+OPT = ("optZ", "optD", "optI")
+
+
+def coq_type(t):
+    if t in OPT:
+        return "option Z"
+    if t.startswith("optE:"):
+        return f"option {t[5:]}"
+    return t
 
 
 class Translator:
@@ -54,9 +90,10 @@ class Translator:
             if isinstance(n, ast.Assign) and len(n.targets) == 1 and isinstance(n.targets[0], ast.Name) \
                     and isinstance(n.value, ast.Constant):
                 self.consts[n.targets[0].id] = n.value.value
-        self.sigs = {}      # method -> [(param, type)]
-        self.rets = {}      # method -> ret type
-        self.alias = False  # translating with other == self
+        self.sigs = {}
+        self.alias = False
+        self.fresh = 0
+        self.guards = None     # list collecting (condition context, denominator text) while translating an expression
 
     # ------------------------------------------------------------------ helpers
     def bad(self, node, why):
@@ -80,16 +117,30 @@ class Translator:
             return "other"
         if isinstance(a, ast.Constant) and a.value is None:
             return "unit"
+        if isinstance(a, ast.BinOp) and isinstance(a.op, ast.BitOr):
+            l, r = a.left, a.right
+            if isinstance(r, ast.Constant) and r.value is None and isinstance(l, ast.Name) and l.id == "int":
+                return "optI"
         self.bad(a, "unsupported annotation")
 
     @staticmethod
     def flt(x: float) -> str:
         return f"({float(x).hex()})%float"
 
-    def field(self, attr):
-        return self.cfg.fields[attr]
+    def is_enum_type(self, t):
+        return any(t == ty for ty, _ in self.cfg.enums.values())
+
+    def self_attr(self, n):
+        return n.attr if (isinstance(n, ast.Attribute) and isinstance(n.value, ast.Name) and n.value.id == "self") else None
+
+    def truthy(self, var, t):
+        """Coq condition (given the bound content `var`) under which an optional of type t is truthy."""
+        return None if t == "optZ" else f"(negb ({var} =? 0))"
 
     # ------------------------------------------------------------------ expressions
+    def to_float(self, a, t):
+        return a if t == "float" else f"({self.cfg.int_to_float} {a})"
+
     def ex(self, n, env, sv="s"):
         """-> (coq text, type)"""
         c = self.cfg
@@ -104,20 +155,23 @@ class Translator:
                 return "tt", "unit"
             self.bad(n, "constant")
         if isinstance(n, ast.Name):
+            if ("unwrapped", "name:" + n.id) in env:
+                return env[("unwrapped", "name:" + n.id)], "Z"
             if n.id in env:
                 if env[n.id] == "str":
                     self.bad(n, "string parameter used in translated code")
                 return n.id, env[n.id]
             self.bad(n, "unknown name")
         if isinstance(n, ast.Attribute):
-            if isinstance(n.value, ast.Name) and n.value.id == "self":
-                if ("unwrapped", n.attr) in env:
-                    return env[("unwrapped", n.attr)], "Z"
-                if n.attr in c.fields:
-                    f, t = c.fields[n.attr]
+            a = self.self_attr(n)
+            if a is not None:
+                if ("unwrapped", a) in env:
+                    return env[("unwrapped", a)], "Z"
+                if a in c.fields:
+                    f, t = c.fields[a]
                     return f"({c.prefix}{f} {sv})", t
-                if n.attr in self.consts:
-                    v = self.consts[n.attr]
+                if a in self.consts:
+                    v = self.consts[a]
                     if isinstance(v, float):
                         return self.flt(v), "float"
                     if isinstance(v, int) and not isinstance(v, bool):
@@ -137,45 +191,74 @@ class Translator:
             if isinstance(n.op, ast.USub) and t == "float":
                 return f"(- {a})%float", "float"
             self.bad(n, "unary operator")
-        if isinstance(n, ast.BoolOp) and isinstance(n.op, ast.And) and len(n.values) >= 2 \
-                and isinstance(n.values[0], ast.Attribute) and isinstance(n.values[0].value, ast.Name) \
-                and n.values[0].value.id == "self" and c.fields.get(n.values[0].attr, (None, None))[1] == "optZ":
-            # `self.x and <expr using self.x>` where x is None or a number-like object that is always truthy
-            # (a datetime): match on the option and read the bound value inside
-            attr = n.values[0].attr
-            f, _ = c.fields[attr]
-            var = f"{f}_v"
-            env2 = dict(env)
-            env2[("unwrapped", attr)] = var
-            rest = ast.BoolOp(op=ast.And(), values=n.values[1:]) if len(n.values) > 2 else n.values[1]
-            r, t = self.ex(rest, env2, sv)
-            if t != "bool":
-                self.bad(n, "and over non-booleans")
-            return f"(match {c.prefix}{f} {sv} with Some {var} => {r} | None => false end)", "bool"
+        if isinstance(n, ast.BoolOp) and isinstance(n.op, ast.And):
+            # leading operands that are optional values: match on them, the rest is evaluated with them unwrapped
+            first = n.values[0]
+            a = self.self_attr(first)
+            if a is not None and a in c.fields and c.fields[a][1] in OPT and ("unwrapped", a) not in env and len(n.values) >= 2:
+                f, t = c.fields[a]
+                var = f"{f}_v"
+                env2 = dict(env)
+                env2[("unwrapped", a)] = var
+                rest = ast.BoolOp(op=ast.And(), values=n.values[1:]) if len(n.values) > 2 else n.values[1]
+                ctx_cond = self.truthy(var, t)
+                r, rt = self.ex_ctx(rest, env2, sv, f"(match {c.prefix}{f} {sv} with Some {var} => "
+                                    + (ctx_cond or "true") + " | None => false end)")
+                if rt != "bool":
+                    self.bad(n, "and over non-booleans")
+                body = r if ctx_cond is None else f"({ctx_cond} && {r})"
+                return f"(match {c.prefix}{f} {sv} with Some {var} => {body} | None => false end)", "bool"
         if isinstance(n, ast.BoolOp):
-            parts = [self.ex(v, env, sv) for v in n.values]
-            if any(t != "bool" for _, t in parts):
-                self.bad(n, "and/or over non-booleans")
-            op = " && " if isinstance(n.op, ast.And) else " || "
-            out = parts[0][0]
-            for p, _ in parts[1:]:
+            is_and = isinstance(n.op, ast.And)
+            # `amount or default` on an optional int
+            if not is_and and len(n.values) == 2 and isinstance(n.values[0], ast.Name) and env.get(n.values[0].id) == "optI":
+                d, dt = self.ex(n.values[1], env, sv)
+                if dt != "Z":
+                    self.bad(n, "or-default of a non-integer")
+                nm = n.values[0].id
+                return f"(match {nm} with Some {nm}_v => if {nm}_v =? 0 then {d} else {nm}_v | None => {d} end)", "Z"
+            parts = []
+            ctx = None
+            for v in n.values:
+                p, t = self.ex_ctx(v, env, sv, ctx)
+                if t != "bool":
+                    self.bad(n, "and/or over non-booleans")
+                parts.append(p)
+                cond = p if is_and else f"(negb {p})"
+                ctx = cond if ctx is None else f"({ctx} && {cond})"
+            op = " && " if is_and else " || "
+            out = parts[0]
+            for p in parts[1:]:
                 out = f"({out}{op}{p})"
             return out, "bool"
         if isinstance(n, ast.Compare):
             if len(n.ops) != 1:
                 self.bad(n, "chained comparison")
+            op = n.ops[0]
+            if isinstance(op, (ast.In, ast.NotIn)) and isinstance(n.comparators[0], (ast.Tuple, ast.List, ast.Set)):
+                a, ta = self.ex(n.left, env, sv)
+                if not self.is_enum_type(ta):
+                    self.bad(n, "membership test on a non-enum")
+                alts = []
+                for e in n.comparators[0].elts:
+                    b, tb = self.ex(e, env, sv)
+                    if tb != ta:
+                        self.bad(n, "membership test over mixed types")
+                    alts.append(f"({ta}_eqb {a} {b})")
+                out = alts[0] if alts else "false"
+                for x in alts[1:]:
+                    out = f"({out} || {x})"
+                return (out if isinstance(op, ast.In) else f"(negb {out})"), "bool"
             a, ta = self.ex(n.left, env, sv)
             b, tb = self.ex(n.comparators[0], env, sv)
-            op = n.ops[0]
             if ta == "Z" and tb == "Z":
                 tab = {ast.Eq: f"({a} =? {b})", ast.NotEq: f"(negb ({a} =? {b}))", ast.Lt: f"({a} <? {b})",
                        ast.LtE: f"({a} <=? {b})", ast.Gt: f"({b} <? {a})", ast.GtE: f"({b} <=? {a})"}
             elif "float" in (ta, tb) and {ta, tb} <= {"float", "Z"}:
-                a2 = a if ta == "float" else f"(f_of_Z {a})"
-                b2 = b if tb == "float" else f"(f_of_Z {b})"
+                a2, b2 = self.to_float(a, ta), self.to_float(b, tb)
                 tab = {ast.Lt: f"({a2} <? {b2})%float", ast.LtE: f"({a2} <=? {b2})%float",
                        ast.Gt: f"({b2} <? {a2})%float", ast.GtE: f"({b2} <=? {a2})%float"}
-            elif ta == tb and any(ta == ty for ty, _ in c.enums.values()):
+            elif ta == tb and self.is_enum_type(ta):
                 tab = {ast.Eq: f"({ta}_eqb {a} {b})", ast.NotEq: f"(negb ({ta}_eqb {a} {b}))"}
             else:
                 self.bad(n, f"comparison of {ta} and {tb}")
@@ -189,10 +272,11 @@ class Translator:
                 o = {ast.Add: "+", ast.Sub: "-", ast.Mult: "*"}[type(n.op)]
                 return f"({a} {o} {b})", "Z"
             if {ta, tb} <= {"Z", "float"} and isinstance(n.op, (ast.Add, ast.Sub, ast.Mult, ast.Div)):
-                if ta == "Z" and tb == "Z" and not isinstance(n.op, ast.Div):
-                    self.bad(n, "unreachable")
-                a2 = a if ta == "float" else f"(f_of_Z {a})"
-                b2 = b if tb == "float" else f"(f_of_Z {b})"
+                if isinstance(n.op, ast.Div) and tb == "Z":
+                    self.note_division(n, b, env)
+                if isinstance(n.op, ast.Div) and tb == "float":
+                    self.bad(n, "division by a float (ZeroDivisionError on 0.0 is not modelled)")
+                a2, b2 = self.to_float(a, ta), self.to_float(b, tb)
                 o = {ast.Add: "+", ast.Sub: "-", ast.Mult: "*", ast.Div: "/"}[type(n.op)]
                 return f"({a2} {o} {b2})%float", "float"
             self.bad(n, f"binary operator on {ta}, {tb}")
@@ -211,16 +295,109 @@ class Translator:
             if n.func.id == "int" and len(n.args) == 1:
                 a, t = self.ex(n.args[0], env, sv)
                 if t == "float":
-                    return f"(f_trunc {a})", "Z"
+                    return f"({c.float_trunc} {a})", "Z"
                 if t == "Z":
                     return a, "Z"
             self.bad(n, "call")
         self.bad(n, "expression")
 
-    # ------------------------------------------------------------------ statements
-    def pure(self, n):
-        return not any(isinstance(x, (ast.Call, ast.Await, ast.Yield, ast.NamedExpr)) for x in ast.walk(n))
+    # -- division guards
+    def ex_ctx(self, n, env, sv, ctx):
+        """Translate `n`, which is evaluated only when `ctx` (a Coq bool, or None) holds."""
+        if self.guards is None or ctx is None:
+            return self.ex(n, env, sv)
+        saved = self.guards
+        self.guards = []
+        try:
+            r = self.ex(n, env, sv)
+        finally:
+            inner = self.guards
+            self.guards = saved
+        for cond, den in inner:
+            self.guards.append((ctx if cond is None else f"({ctx} && {cond})", den))
+        return r
 
+    def note_division(self, node, den, env):
+        if den in env.get("__nz", ()):
+            return
+        m = re.fullmatch(r"\((-?\d+)\)", den)
+        if m and int(m.group(1)) != 0:
+            return
+        if self.guards is None:
+            self.bad(node, "integer division whose denominator is not known to be non-zero")
+        self.guards.append((None, den))
+
+    def ex_guarded(self, n, env):
+        """-> (text, type, guard) where guard is a Coq bool that is true iff evaluating n raises ZeroDivisionError."""
+        self.guards = []
+        try:
+            txt, t = self.ex(n, env)
+            gs = self.guards
+        finally:
+            self.guards = None
+        if not gs:
+            return txt, t, None
+        if not self.cfg.effects or "raise" not in self.cfg.ret_ctor:
+            self.bad(n, "integer division whose denominator is not known to be non-zero")
+        parts = [f"({den} =? 0)" if cond is None else f"({cond} && ({den} =? 0))" for cond, den in gs]
+        g = parts[0]
+        for p in parts[1:]:
+            g = f"({g} || {p})"
+        return txt, t, g
+
+    def facts(self, test, env, positive):
+        """Texts known to be non-zero when `test` is true (positive) / false."""
+        out = set()
+        if isinstance(test, ast.BoolOp) and isinstance(test.op, ast.And) and positive:
+            for v in test.values:
+                out |= self.facts(v, env, True)
+        if isinstance(test, ast.BoolOp) and isinstance(test.op, ast.Or) and not positive:
+            for v in test.values:
+                out |= self.facts(v, env, False)
+        if isinstance(test, ast.UnaryOp) and isinstance(test.op, ast.Not):
+            out |= self.facts(test.operand, env, not positive)
+        if isinstance(test, ast.Compare) and len(test.ops) == 1:
+            l, r, op = test.left, test.comparators[0], test.ops[0]
+
+            def const(x, v):
+                return isinstance(x, ast.Constant) and type(x.value) is int and x.value == v
+
+            def txt(x):
+                try:
+                    g = self.guards
+                    self.guards = []
+                    t, ty = self.ex(x, env)
+                    return t if ty == "Z" else None
+                except Unsupported:
+                    return None
+                finally:
+                    self.guards = g
+            cand = None
+            if positive:
+                if isinstance(op, ast.Gt) and const(r, 0) or isinstance(op, ast.NotEq) and const(r, 0) \
+                        or isinstance(op, ast.GtE) and const(r, 1):
+                    cand = l
+                if isinstance(op, ast.Lt) and const(l, 0) or isinstance(op, ast.NotEq) and const(l, 0) \
+                        or isinstance(op, ast.LtE) and const(l, 1):
+                    cand = r
+            else:
+                if isinstance(op, (ast.Eq, ast.LtE)) and const(r, 0) or isinstance(op, ast.Lt) and const(r, 1):
+                    cand = l
+                if isinstance(op, ast.Eq) and const(l, 0) or isinstance(op, ast.GtE) and const(l, 0):
+                    cand = r
+            if cand is not None:
+                t = txt(cand)
+                if t:
+                    out.add(t)
+        return out
+
+    @staticmethod
+    def drop_facts(env, token):
+        nz = env.get("__nz")
+        if nz:
+            env["__nz"] = frozenset(f for f in nz if not re.search(r"(?<![\w.])" + re.escape(token) + r"(?![\w])", f))
+
+    # ------------------------------------------------------------------ statements
     def is_dropped_stmt(self, st):
         """Statements with no effect on the modelled state."""
         c = self.cfg
@@ -232,39 +409,38 @@ class Translator:
                 f = v.func
                 if isinstance(f, ast.Name) and f.id == "print":
                     return True
-                if isinstance(f, ast.Attribute) and isinstance(f.value, ast.Name) and f.value.id == "self":
-                    if f.attr in c.audit_methods or f.attr in c.callbacks:
-                        return True
-                # method call on an audit attribute (self._transactions.clear())
-                if isinstance(f, ast.Attribute) and isinstance(f.value, ast.Attribute) \
-                        and isinstance(f.value.value, ast.Name) and f.value.value.id == "self" \
-                        and f.value.attr in c.audit_attrs:
+                a = self.self_attr(f) if isinstance(f, ast.Attribute) else None
+                if a is not None and (a in c.audit_methods or a in c.callbacks):
                     return True
+                if isinstance(f, ast.Attribute) and self.self_attr(f.value) in c.audit_attrs:
+                    return True                      # self._transactions.clear()
             return False
         if isinstance(st, (ast.Assign, ast.AugAssign)):
             tgts = st.targets if isinstance(st, ast.Assign) else [st.target]
-            if all(isinstance(t, ast.Attribute) and isinstance(t.value, ast.Name) and t.value.id == "self"
-                   and t.attr in c.audit_attrs for t in tgts):
-                # the right-hand side may only mention audit attributes, parameters and constants: it cannot fail
-                # in a way that matters and reads nothing modelled that could be needed later
-                return True
-            return False
+            return all(self.self_attr(t) in c.audit_attrs for t in tgts)
         if isinstance(st, ast.If):
+            if self.event_of(st) is not None:
+                return False
             if all(self.is_dropped_stmt(x) for x in st.body) and all(self.is_dropped_stmt(x) for x in st.orelse):
-                # the condition is evaluated but has no effect: names, attributes, comparisons, not/and/or only
-                t = st.test
-                ok = all(isinstance(x, (ast.Name, ast.Attribute, ast.Compare, ast.BoolOp, ast.UnaryOp, ast.Constant,
-                                        ast.Load, ast.And, ast.Or, ast.Not, ast.cmpop, ast.expr_context, ast.operator,
-                                        ast.BinOp))
-                         for x in ast.walk(t))
-                return ok
+                return all(isinstance(x, (ast.Name, ast.Attribute, ast.Compare, ast.BoolOp, ast.UnaryOp, ast.Constant,
+                                          ast.Load, ast.And, ast.Or, ast.Not, ast.cmpop, ast.expr_context))
+                           for x in ast.walk(st.test))
             return False
-        if isinstance(st, ast.Pass):
-            return True
-        return False
+        return isinstance(st, ast.Pass)
+
+    def event_of(self, st):
+        """`if self.cb: self.cb(args)` for a declared event callback -> (cb, arg nodes)."""
+        c = self.cfg
+        if not (isinstance(st, ast.If) and not st.orelse and len(st.body) == 1):
+            return None
+        a = self.self_attr(st.test)
+        b = st.body[0]
+        if a in c.event_callbacks and isinstance(b, ast.Expr) and isinstance(b.value, ast.Call) \
+                and self.self_attr(b.value.func) == a and not b.value.keywords:
+            return a, b.value.args
+        return None
 
     def returns(self, stmts):
-        """Does every path through `stmts` end in a return?"""
         for st in stmts:
             if isinstance(st, ast.Return):
                 return True
@@ -274,17 +450,68 @@ class Translator:
                 return True
         return False
 
+    def ret_term(self, key, val=""):
+        fmt = self.cfg.ret_ctor[key]
+        if "%s" in fmt:
+            return "(" + fmt % val + ")"
+        return f"({fmt} {val})" if val else fmt
+
     def result(self, val_txt, val_ty, kind, two):
         c = self.cfg
+        if c.effects:
+            if val_ty == "raise":
+                r = self.ret_term("raise")
+            elif val_ty == "unit" or kind == "proc":
+                r = self.ret_term("unit")
+            elif val_ty in c.ret_ctor:
+                r = self.ret_term(val_ty, val_txt)
+            else:
+                raise Unsupported(f"return of type {val_ty}")
+            return f"(s, {r}, ev)"
         if kind == "proc":
             return "s"
         if val_ty == "unit":
-            r = c.ret_ctor["unit"]
+            r = self.ret_term("unit")
         elif val_ty in c.ret_ctor:
-            r = f"({c.ret_ctor[val_ty]} {val_txt})"
+            r = self.ret_term(val_ty, val_txt)
         else:
             raise Unsupported(f"return of type {val_ty}")
         return f"(s, o, {r})" if two else f"(s, {r})"
+
+    def guard_wrap(self, g, body, kind, two):
+        if g is None:
+            return body
+        return f"(if {g}\n then {self.result('', 'raise', kind, two)}\n else {body})"
+
+    def opt_test(self, test, env):
+        """If `test` is a conjunction of optional-valued attributes / names only, -> [(coq scrutinee, var, type, key)]."""
+        vals = test.values if (isinstance(test, ast.BoolOp) and isinstance(test.op, ast.And)) else [test]
+        out = []
+        for v in vals:
+            a = self.self_attr(v)
+            if a is not None and a in self.cfg.fields and self.cfg.fields[a][1] in OPT and ("unwrapped", a) not in env:
+                f, t = self.cfg.fields[a]
+                out.append((f"({self.cfg.prefix}{f} s)", f"{f}_v", t, a))
+            elif isinstance(v, ast.Name) and env.get(v.id) in OPT and ("unwrapped", "name:" + v.id) not in env:
+                out.append((v.id, f"{v.id}_v", env[v.id], "name:" + v.id))
+            else:
+                return None
+        return out
+
+    def assigned_attrs(self, stmts):
+        out = set()
+        for st in stmts:
+            for x in ast.walk(st):
+                if isinstance(x, (ast.Assign, ast.AugAssign)):
+                    for t in (x.targets if isinstance(x, ast.Assign) else [x.target]):
+                        a = self.self_attr(t)
+                        if a:
+                            out.add(a)
+                        if isinstance(t, ast.Name):
+                            out.add("name:" + t.id)
+                if isinstance(x, ast.Call) and self.self_attr(x.func) in self.cfg.methods:
+                    out.add("*")
+        return out
 
     def st(self, stmts, env, kind, two):
         """Translate a statement list (with everything that follows it) to a Gallina term."""
@@ -294,29 +521,59 @@ class Translator:
         st, rest = stmts[0], stmts[1:]
         if self.is_dropped_stmt(st):
             return self.st(rest, env, kind, two)
+        ev = self.event_of(st)
+        if ev is not None:
+            if not c.effects:
+                self.bad(st, "event callback in a plain translation")
+            cb, args = ev
+            vals = [self.ex(a, env)[0] for a in args]
+            term = c.event_callbacks[cb] % tuple(vals)
+            return f"(let ev := ev ++ [{term}] in\n {self.st(rest, env, kind, two)})"
         if isinstance(st, ast.Return):
-            if kind == "proc":
-                if st.value is not None:
-                    self.bad(st, "value returned from a procedure")
-                return "s"
             if st.value is None:
                 return self.result("tt", "unit", kind, two)
-            v, t = self.ex(st.value, env)
-            return self.result(v, t, kind, two)
+            if kind == "proc":
+                self.bad(st, "value returned from a procedure")
+            v, t, g = self.ex_guarded(st.value, env)
+            return self.guard_wrap(g, self.result(v, t, kind, two), kind, two)
         if isinstance(st, ast.With):
             for it in st.items:
-                e = it.context_expr
-                if not (isinstance(e, ast.Attribute) and isinstance(e.value, ast.Name) and e.value.id == "self"
-                        and e.attr in c.lock_attrs and it.optional_vars is None):
+                if not (self.self_attr(it.context_expr) in c.lock_attrs and it.optional_vars is None):
                     self.bad(st, "with-statement on something that is not the object's lock")
             return self.st(list(st.body) + rest, env, kind, two)
         if isinstance(st, ast.If):
-            cond, t = self.ex(st.test, env)
+            body_rest = [] if self.returns(st.body) else rest
+            else_rest = [] if (st.orelse and self.returns(st.orelse)) else rest
+            opts = self.opt_test(st.test, env)
+            if opts is not None:
+                # `if self.limit and self.since:` - bind the contents for the body
+                # (an assignment to a tested optional inside the body is refused where it occurs; after a method
+                #  call the bound contents are dropped, so a later read is refused by its type)
+                env2 = dict(env)
+                for _, var, _, key in opts:
+                    env2[("unwrapped", key)] = var
+                a = self.st(list(st.body) + body_rest, env2, kind, two)
+                b = self.st(list(st.orelse) + else_rest, dict(env), kind, two)
+                conds = [self.truthy(var, t) for _, var, t, _ in opts if self.truthy(var, t)]
+                inner = a
+                if conds:
+                    cc = conds[0]
+                    for x in conds[1:]:
+                        cc = f"({cc} && {x})"
+                    inner = f"(if {cc}\n then {a}\n else {b})"
+                scrut = ", ".join(s for s, _, _, _ in opts)
+                pat = ", ".join(f"Some {var}" for _, var, _, _ in opts)
+                wild = ", ".join("_" for _ in opts)
+                return f"(match {scrut} with\n | {pat} => {inner}\n | {wild} => {b}\n end)"
+            cond, t, g = self.ex_guarded(st.test, env)
             if t != "bool":
                 self.bad(st.test, "condition is not boolean")
-            a = self.st(list(st.body) + ([] if self.returns(st.body) else rest), dict(env), kind, two)
-            b = self.st(list(st.orelse) + ([] if (st.orelse and self.returns(st.orelse)) else rest), dict(env), kind, two)
-            return f"(if {cond}\n then {a}\n else {b})"
+            env_t, env_f = dict(env), dict(env)
+            env_t["__nz"] = frozenset(env.get("__nz", frozenset()) | self.facts(st.test, env, True))
+            env_f["__nz"] = frozenset(env.get("__nz", frozenset()) | self.facts(st.test, env, False))
+            a = self.st(list(st.body) + body_rest, env_t, kind, two)
+            b = self.st(list(st.orelse) + else_rest, env_f, kind, two)
+            return self.guard_wrap(g, f"(if {cond}\n then {a}\n else {b})", kind, two)
         if isinstance(st, (ast.Assign, ast.AugAssign)):
             if isinstance(st, ast.Assign):
                 if len(st.targets) != 1:
@@ -328,25 +585,39 @@ class Translator:
                     ast.Attribute(value=tgt.value, attr=tgt.attr, ctx=ast.Load()) if isinstance(tgt, ast.Attribute)
                     else ast.Name(id=tgt.id, ctx=ast.Load()), tgt), op=st.op, right=st.value)
                 ast.copy_location(val, st)
-            v, t = self.ex(val, env)
+            v, t, g = self.ex_guarded(val, env)
             if isinstance(tgt, ast.Name):
-                if tgt.id in env and env[tgt.id] != t:
+                if tgt.id == "now" and v == "now":
+                    env2 = dict(env)
+                    env2["now"] = "Z"
+                    return self.st(rest, env2, kind, two)         # now = datetime.now()
+                if tgt.id in env and env[tgt.id] != t and not (env[tgt.id] in OPT and t == "Z"):
                     self.bad(st, f"variable changes type from {env[tgt.id]} to {t}")
-                if tgt.id in ("s", "o"):
-                    self.bad(st, "local variable named like the state")
+                if tgt.id in ("s", "o", "ev", "now"):
+                    self.bad(st, "local variable named like a generated one")
                 env2 = dict(env)
                 env2[tgt.id] = t
-                return f"(let {tgt.id} := {v} in\n {self.st(rest, env2, kind, two)})"
-            if isinstance(tgt, ast.Attribute) and isinstance(tgt.value, ast.Name) and tgt.value.id == "self" \
-                    and tgt.attr in c.fields:
-                f, ft = c.fields[tgt.attr]
-                if ft == "optZ" and t == "Z":
-                    v, t = f"(Some {v})", "optZ"
-                if ft == "optZ" and t == "unit":
-                    v, t = "None", "optZ"
+                self.drop_facts(env2, tgt.id)
+                return self.guard_wrap(g, f"(let {tgt.id} := {v} in\n {self.st(rest, env2, kind, two)})", kind, two)
+            a = self.self_attr(tgt)
+            if a is not None and a in c.fields:
+                f, ft = c.fields[a]
+                if ft in OPT and t == "Z":
+                    v, t = f"(Some {v})", ft
+                if (ft in OPT or ft.startswith("optE:")) and t == "unit":
+                    v, t = "None", ft
+                if ft.startswith("optE:") and t == ft[5:]:
+                    v, t = f"(Some {v})", ft
+                if ft in OPT and t in OPT:
+                    t = ft
                 if ft != t:
-                    self.bad(st, f"field {tgt.attr} of type {ft} assigned a {t}")
-                return f"(let s := {c.prefix}set_{f} s {v} in\n {self.st(rest, env, kind, two)})"
+                    self.bad(st, f"field {a} of type {ft} assigned a {t}")
+                env2 = dict(env)
+                self.drop_facts(env2, f"({c.prefix}{f} s)")
+                if ("unwrapped", a) in env2:
+                    self.bad(st, "assignment to an optional while its content is bound")
+                return self.guard_wrap(g, f"(let s := {c.prefix}set_{f} s {v} in\n {self.st(rest, env2, kind, two)})",
+                                       kind, two)
             self.bad(st, "assignment target")
         if isinstance(st, ast.Expr) and isinstance(st.value, ast.Call):
             call = st.value
@@ -358,6 +629,7 @@ class Translator:
                     sig = self.signature(f.attr)
                     if len(call.args) > len(sig):
                         self.bad(st, "too many arguments")
+                    gs = []
                     for (pn, pt, dflt), a in zip(sig, list(call.args) + [None] * (len(sig) - len(call.args))):
                         if pt == "str":
                             continue
@@ -365,17 +637,36 @@ class Translator:
                             if dflt is None:
                                 self.bad(st, f"missing argument {pn}")
                             a = dflt
-                        v, t = self.ex(a, env)
+                        v, t, g = self.ex_guarded(a, env)
+                        if g:
+                            gs.append(g)
+                        if pt in OPT and t == "Z":
+                            v, t = f"(Some {v})", pt
+                        if pt in OPT and t == "unit":
+                            v, t = "None", pt
                         if t != pt:
                             self.bad(st, f"argument {pn} has type {t}, expected {pt}")
                         args.append(v)
+                    if gs:
+                        self.bad(st, "division in a call argument")
                     target = "s" if (recv == "self" or self.alias) else "o"
                     if recv != "self" and not two and not self.alias:
                         self.bad(st, "call on another instance")
                     callee = f"{c.prefix}{f.attr.lstrip('_')} {target} " + ("now " if c.clock else "") + " ".join(args)
+                    env2 = dict(env)
+                    env2["__nz"] = frozenset()
+                    # the callee may assign optional attributes: their bound contents are stale afterwards
+                    for k in [k for k in env2 if isinstance(k, tuple) and k[0] == "unwrapped" and not str(k[1]).startswith("name:")]:
+                        del env2[k]
+                    if c.effects:
+                        self.fresh += 1
+                        k = self.fresh
+                        return (f"(let '({target}, o{k}, e{k}) := {callee} in\n let ev := ev ++ e{k} in\n"
+                                f" match o{k} with\n | {self.ret_term('raise')} => (s, {self.ret_term('raise')}, ev)\n"
+                                f" | _ => {self.st(rest, env2, kind, two)}\n end)")
                     if c.methods[f.attr] == "proc":
-                        return f"(let {target} := {callee} in\n {self.st(rest, env, kind, two)})"
-                    return f"(let {target} := fst ({callee}) in\n {self.st(rest, env, kind, two)})"
+                        return f"(let {target} := {callee} in\n {self.st(rest, env2, kind, two)})"
+                    return f"(let {target} := fst ({callee}) in\n {self.st(rest, env2, kind, two)})"
             self.bad(st, "call statement")
         self.bad(st, "statement")
 
@@ -403,10 +694,10 @@ class Translator:
         if m is None:
             raise Unsupported(f"audit method {name} not found")
         for x in ast.walk(m):
-            if isinstance(x, ast.Attribute) and isinstance(x.value, ast.Name) and x.value.id == "self":
-                if x.attr not in self.cfg.audit_attrs:
-                    self.bad(x, f"audit method {name} touches a modelled attribute")
-            if isinstance(x, (ast.Return,)) and x.value is not None:
+            a = self.self_attr(x)
+            if a is not None and a not in self.cfg.audit_attrs:
+                self.bad(x, f"audit method {name} touches a modelled attribute")
+            if isinstance(x, ast.Return) and x.value is not None:
                 self.bad(x, "audit method returns a value")
 
     def method(self, name, alias=False):
@@ -419,13 +710,17 @@ class Translator:
         two = any(t == "other" for _, t, _ in sig) and not alias
         self.alias = alias
         env = {p: t for p, t, _ in sig if t != "other"}
+        env["__nz"] = frozenset()
         body = self.st(list(m.body), env, kind, two)
         self.alias = False
-        params = " ".join(f"({p} : {t})" for p, t, _ in sig if t not in ("str", "other"))
+        params = " ".join(f"({p} : {coq_type(t)})" for p, t, _ in sig if t not in ("str", "other"))
         if c.clock:
             params = "(now : Z) " + params
         fname = f"{c.prefix}{name.lstrip('_')}" + ("_self" if alias else "")
         st = c.state_type
+        if c.effects:
+            return (f"Definition {fname} (s : {st}) {params} : {st} * {c.outcome_type} * list {c.event_type} :=\n"
+                    f" let ev : list {c.event_type} := [] in\n {body}.\n")
         if two:
             return f"Definition {fname} (s o : {st}) {params} : {st} * {st} * ret :=\n {body}.\n"
         if kind == "proc":
@@ -449,8 +744,7 @@ class Translator:
                     tg = x.targets
                 for t in tg:
                     for y in ast.walk(t):
-                        if isinstance(y, ast.Attribute) and isinstance(y.value, ast.Name) and y.value.id == "self" \
-                                and y.attr in c.fields:
+                        if self.self_attr(y) in c.fields:
                             self.bad(x, f"modelled attribute {y.attr} is assigned in method {name}, which is not translated")
                 if isinstance(x, ast.Call) and isinstance(x.func, ast.Name) and x.func.id in ("setattr", "delattr", "vars"):
                     self.bad(x, f"{x.func.id} in method {name}")
@@ -458,13 +752,12 @@ class Translator:
                     self.bad(x, f"__dict__ access in method {name}")
 
     def callers(self, targets):
-        """{method: [called target, ...]} for every method of the class that calls one of `targets` on self."""
+        """{method: [called target, ...]} (source order) for every method of the class that calls one of `targets`."""
         out = {}
         for name, m in self.meths.items():
             sites = []
             for x in ast.walk(m):
-                if isinstance(x, ast.Call) and isinstance(x.func, ast.Attribute) and isinstance(x.func.value, ast.Name) \
-                        and x.func.value.id == "self" and x.func.attr in targets:
+                if isinstance(x, ast.Call) and self.self_attr(x.func) in targets:
                     sites.append((x.lineno, x.col_offset, x.func.attr))
             if sites:
                 out[name] = [a for _, _, a in sorted(sites)]
@@ -476,19 +769,16 @@ class Translator:
         for a in c.audit_methods:
             self.check_audit_method(a)
         out = [c.header, ""]
-        # enum equality tests
         for py, (ty, members) in c.enums.items():
             ctors = list(members.values())
             rows = " ".join(f"| {k}, {k} => true" for k in ctors)
             out.append(f"Definition {ty}_eqb (a b : {ty}) : bool := match a, b with {rows} | _, _ => false end.")
-        # state record
         fs = list(c.fields.values())
         out.append(f"Record {c.state_type} := mk_{c.state_type} {{ " +
-                   "; ".join(f"{c.prefix}{f} : {'option Z' if t == 'optZ' else t}" for f, t in fs) + " }.")
+                   "; ".join(f"{c.prefix}{f} : {coq_type(t)}" for f, t in fs) + " }.")
         for f, t in fs:
             args = " ".join(("v" if g == f else f"({c.prefix}{g} s)") for g, _ in fs)
-            t = "option Z" if t == "optZ" else t
-            out.append(f"Definition {c.prefix}set_{f} (s : {c.state_type}) (v : {t}) : {c.state_type} := "
+            out.append(f"Definition {c.prefix}set_{f} (s : {c.state_type}) (v : {coq_type(t)}) : {c.state_type} := "
                        f"mk_{c.state_type} {args}.")
         out.append("")
         for name in order:
